@@ -4,6 +4,7 @@ import (
 	"encoding/base64"
 	"fmt"
 	"math/rand"
+	"net/url"
 	"regexp"
 	"strings"
 	"sync/atomic"
@@ -253,6 +254,53 @@ func c06Case(r *core.Run, idx int, rng *rand.Rand) {
 	}
 }
 
+// c06Repeated: byte for byte the same request is sent a second time to the same provider after it stopped being
+// acceptable - its NotOnOrAfter has passed meanwhile, or its issuer's registration was revoked. Every acceptance is
+// judged against the present.
+func c06Repeated(r *core.Run, idx int, rng *rand.Rand) {
+	const wl = "repeated_requests"
+	e := env.Static(env.Opts{})
+	e.W.NilForUnknown = rng.Intn(2) == 0
+	d := stdSP(0)
+	d.AuthnRequestsSigned = ""
+	mustRegister(e.W, d, "appA")
+	a := validAuthn(rng, d)
+	mode := []string{"expired_meanwhile", "deregistered_meanwhile"}[idx%2]
+	deadline := time.Now().Add(120 * time.Millisecond)
+	if mode == "expired_meanwhile" {
+		a.Conditions, a.NotOnOrAfter = true, deadline.UTC().Format("2006-01-02T15:04:05.000000Z")
+	}
+	x := a.XML(rng)
+	var rq env.Req
+	if idx%4 < 2 {
+		rq = env.Req{Method: "POST", Path: env.PathSSO, Body: spsim.FormBody("SAMLRequest", spsim.B64([]byte(x)), "RelayState", "MKrelay")}
+	} else {
+		rq = env.Req{Path: env.PathSSO, Query: "SAMLRequest=" + url.QueryEscape(spsim.DeflateB64(x)) + "&RelayState=MKrelay"}
+	}
+	first := e.Do(rq)
+	if !first.Accepted() {
+		r.Count("repeated_first_not_accepted", 1) // (may happen on a loaded machine for the expiring request)
+		return
+	}
+	if mode == "expired_meanwhile" {
+		time.Sleep(time.Until(deadline.Add(30 * time.Millisecond)))
+	} else {
+		e.W.RemoveSP(d.EntityID)
+	}
+	second := e.Do(rq)
+	class := "repeated|" + mode
+	r.Eval(fmt.Sprintf("%s|%d", class, idx))
+	r.Count("requests_repeated_after_they_stopped_being_acceptable", 1)
+	if second.Panic != "" {
+		r.Violate(core.Violation{Clause: "panic", Class: class, Reason: second.Panic, Workload: wl, Index: idx, Observed: second.Describe()})
+		return
+	}
+	if second.Accepted() || (second.D.Status == 303 && strings.HasPrefix(second.D.Location, "https://login.idp.example/")) {
+		r.Violate(core.Violation{Clause: "deviation_accepted", Class: class, Reason: "the same request was accepted again (" + mode + "): persisted or sent on to login although it no longer satisfies the conditions", Workload: wl, Index: idx,
+			Case: map[string]any{"mode": mode, "not_on_or_after": a.NotOnOrAfter, "xml": clipS(x, 1200)}, Observed: second.Describe()})
+	}
+}
+
 func init() {
 	register(&Prop{
 		ID: "C06", Level: "exploration", DeathIsViolation: true,
@@ -267,6 +315,7 @@ func init() {
 			r.Require("accepted_independently_evaluated", 50)
 			r.Require("multi_host_mismatches_refused", 200)
 			r.Require("multi_host_concurrent_mismatches_refused", 300)
+			r.Require("requests_repeated_after_they_stopped_being_acceptable", 40)
 			return []core.Workload{
 				{Name: "deviations", N: c.Pick(2000, 24000), Fn: c06Case},
 				{Name: "multi_host_sequences", N: c.Pick(150, 1500), Fn: func(r *core.Run, idx int, rng *rand.Rand) {
@@ -275,6 +324,7 @@ func init() {
 				{Name: "multi_host_concurrent", N: c.Pick(40, 400), Fn: func(r *core.Run, idx int, rng *rand.Rand) {
 					multiHostConcurrent(r, "multi_host_concurrent", idx, rng, true)
 				}},
+				{Name: "repeated_requests", N: c.Pick(48, 240), Fn: c06Repeated},
 			}
 		},
 		After: func(c *Ctx) { verify.Py.Close() },
